@@ -331,6 +331,8 @@ def upper_of(s):
     ss = z3.simplify(s)
     if z3.is_string_value(ss):
         return z3.StringVal(ss.as_string().upper())
+    if z3.is_app(s) and s.decl().name() == "py_upper":
+        return s  # upper is idempotent
     return UPPER(s)
 
 
